@@ -229,6 +229,66 @@ def writeTL2 (d : Desc) (fuel ty : Nat) (optimizeEmpty : Bool) (v : Val) : Excep
   | .error e => .error e
   | .ok b => .ok (optBytes b)
 
+/-! ### the guard of C04: a float `-0.0` in a position where the writer tests `x != 0` -/
+
+def negZero : PrimK → Val → Bool
+  | .f32, .nat n => n % 2147483648 == 0 && n != 0
+  | .f64, .nat n => n % 9223372036854775808 == 0 && n != 0
+  | _, _ => false
+
+def allFieldsWith (p : Nat → Bool → Val → Bool) : List Field → List (Option Val) → Bool
+  | f :: fs, v :: vs =>
+    (if f.omitted then true
+     else if f.tl2bit.isSome then
+       (match v with
+        | none => true
+        | some x => f.isBit || p f.ty false x)
+     else
+       (match v with
+        | some x => p f.ty true x
+        | none => true)) && allFieldsWith p fs vs
+  | _, _ => true
+
+/-- no float `-0.0` sits where the TL2 writer would treat it as empty (non-optional field, Maybe value, through aliases) -/
+def noNegZero (d : Desc) : Nat → Nat → Bool → Val → Bool
+  | 0, _, _, _ => true
+  | fuel + 1, ty, zie, v =>
+    match d.get? ty with
+    | none => true
+    | some (.prim k) => !(zie && negZero k v)
+    | some (.struct s) =>
+      if (s.isAlias || s.isUnwrap) && !s.isUnionElement then
+        match s.fields, v with
+        | [f], .struct [some x] => noNegZero d fuel f.ty zie x
+        | _, _ => true
+      else
+        match v with
+        | .struct fs => allFieldsWith (noNegZero d fuel) s.fields fs
+        | _ => true
+    | some (.union u) =>
+      match v with
+      | .union i x =>
+        match u.variants[i]? with
+        | some (vi, _) =>
+          if u.isMaybe && i != 0 then
+            match d.get? vi, x with
+            | some (.struct vs), .struct [some y] =>
+              (match vs.fields with
+               | [f] => noNegZero d fuel f.ty true y
+               | _ => true)
+            | _, _ => true
+          else noNegZero d fuel vi zie x
+        | none => true
+      | _ => true
+    | some (.array a) =>
+      match v with
+      | .arr es => es.all (noNegZero d fuel a.elem.ty false)
+      | _ => true
+    | some (.dict a) =>
+      match v with
+      | .arr es => es.all (noNegZero d fuel a.elem.ty false)
+      | _ => true
+
 /-! ### layout pass (`CalculateLayout`), modelled with the Go counters -/
 
 abbrev Lay := Nat → Bool → Val → Except CErr (Option Nat)
